@@ -5,7 +5,8 @@
 From Coq Require Import ZArith List Bool Lia.
 From Soc Require Import Lib.Bits Lib.Res.
 From Soc Require Import Model.Mux Model.MuxSpec Model.Gpio Model.GpioSpec.
-From Soc Require Import Proofs.Gpio Proofs.GpioCtor Proofs.GpioSpan Proofs.GpioBus.
+From Soc Require Import Proofs.Gpio Proofs.GpioCtor Proofs.GpioSpan Proofs.GpioBus Proofs.GpioRegs.
+From Soc Require Model.RegPack.
 Import ListNotations.
 Open Scope Z_scope.
 
@@ -98,6 +99,56 @@ Theorem C16_pins_independent : forall s1 s2 es1 es2 j,
   nth_error (core_out (core_after s1 es1)) j = nth_error (core_out (core_after s2 es2)) j.
 Proof. exact pins_independent. Qed.
 Print Assumptions C16_pins_independent.
+
+(* ================================================================== the registers are C11 registers *)
+(* The fan-out used above (pin j's fields at bits [2j,2j+2) of Mode, bit j of Input / Output, bits 2j / 2j+1 of
+   SetClr; r_data = concatenation of the field values) is not an assumption of the GPIO model: it is what the C11
+   model of csr.Register (flatten + elaborate, Model/RegPack.v) yields for the field collections the four register
+   classes hand to csr.Register, for every pin count. *)
+Theorem C16_mode_register_is_C11 : forall s el r_stb,
+  fst (RegPack.reg_out (mode_tree (length s)) (mode_ein el r_stb) (map ps_mode s)) = mode_val s /\
+  forall k, (k < length s)%nat ->
+    nth_error (snd (RegPack.reg_out (mode_tree (length s)) (mode_ein el r_stb) (map ps_mode s))) k =
+    Some {| RegPack.p_r_stb := r_stb; RegPack.p_w_stb := pi_mode_wstb (pin_slice el k);
+            RegPack.p_w_data := pi_mode_wdata (pin_slice el k) |}.
+Proof. exact mode_register_tie. Qed.
+Print Assumptions C16_mode_register_is_C11.
+
+Theorem C16_input_register_is_C11 : forall s pins e,
+  fst (RegPack.reg_out (input_tree (length s)) e (map Z.b2z (input_bits_from 0 s pins))) = input_val s pins.
+Proof. exact input_register_tie. Qed.
+Print Assumptions C16_input_register_is_C11.
+
+Theorem C16_output_register_is_C11 : forall s el r_stb,
+  fst (RegPack.reg_out (output_tree (length s)) (out_ein el r_stb) (map (fun ps => Z.b2z (ps_out ps)) s)) = output_val s /\
+  forall k, (k < length s)%nat ->
+    nth_error (snd (RegPack.reg_out (output_tree (length s)) (out_ein el r_stb) (map (fun ps => Z.b2z (ps_out ps)) s))) k =
+    Some {| RegPack.p_r_stb := r_stb; RegPack.p_w_stb := pi_out_wstb (pin_slice el k);
+            RegPack.p_w_data := Z.b2z (pi_out_wdata (pin_slice el k)) |}.
+Proof. exact output_register_tie. Qed.
+Print Assumptions C16_output_register_is_C11.
+
+Theorem C16_setclr_register_is_C11 : forall n el,
+  let ro := RegPack.reg_out (setclr_tree n) (sc_ein el) (repeat 0 (2 * n)) in
+  fst ro = 0 /\
+  forall k, (k < n)%nat ->
+    nth_error (snd ro) (2 * k) =
+      Some {| RegPack.p_r_stb := false; RegPack.p_w_stb := pi_set_wstb (pin_slice el k);
+              RegPack.p_w_data := Z.b2z (pi_set_wdata (pin_slice el k)) |} /\
+    nth_error (snd ro) (2 * k + 1) =
+      Some {| RegPack.p_r_stb := false; RegPack.p_w_stb := pi_clr_wstb (pin_slice el k);
+              RegPack.p_w_data := Z.b2z (pi_clr_wdata (pin_slice el k)) |}.
+Proof. exact setclr_register_tie. Qed.
+Print Assumptions C16_setclr_register_is_C11.
+
+(* and csr.Register.__init__ (C11 model) accepts the four collections with the element widths the layout uses *)
+Theorem C16_register_classes_accepted : forall n, (0 < n)%nat ->
+  RegPack.reg_core (mode_tree n) RegPack.ERW = RegPack.Ok (2 * Z.of_nat n) /\
+  RegPack.reg_core (input_tree n) RegPack.ER = RegPack.Ok (Z.of_nat n) /\
+  RegPack.reg_core (output_tree n) RegPack.ERW = RegPack.Ok (Z.of_nat n) /\
+  RegPack.reg_core (setclr_tree n) RegPack.EW = RegPack.Ok (2 * Z.of_nat n).
+Proof. exact register_classes_accepted. Qed.
+Print Assumptions C16_register_classes_accepted.
 
 (* ================================================================== constructor and bus geometry *)
 
@@ -434,6 +485,20 @@ Example C16_priority_nonvacuous :
   oreg_next [false; true; false; true] {| q_wstb := true; q_wdata := 0x6; q_set := 0x5; q_clr := 0x6 |} =
     [true; false; true; false].
 Proof. reflexivity. Qed.
+
+(* 3 pins: the C11 model of the Mode register over modes [1;2;3] reads 0b111001 and hands pin 1 bits [2,4) of w_data;
+   the SetClr register hands pin 2 its set bit (bit 4) and clr bit (bit 5) *)
+Example C16_registers_nonvacuous :
+  let el := {| e_mode_wstb := true; e_mode_wdata := 0x2D; e_out_wstb := false; e_out_wdata := 0;
+               e_sc_wstb := true; e_sc_wdata := 0x1B; e_pins := 0 |} in
+  let s := map (fun m => {| ps_mode := m; ps_out := false; ps_ffs := [] |}) [1; 2; 3] in
+  RegPack.reg_out (mode_tree 3) (mode_ein el false) (map ps_mode s) =
+    (57, [ {| RegPack.p_r_stb := false; RegPack.p_w_stb := true; RegPack.p_w_data := 1 |};
+           {| RegPack.p_r_stb := false; RegPack.p_w_stb := true; RegPack.p_w_data := 3 |};
+           {| RegPack.p_r_stb := false; RegPack.p_w_stb := true; RegPack.p_w_data := 2 |} ]) /\
+  map RegPack.p_w_data (snd (RegPack.reg_out (setclr_tree 3) (sc_ein el) (repeat 0 6))) = [1; 1; 0; 1; 1; 0] /\
+  (pi_set_wdata (pin_slice el 2), pi_clr_wdata (pin_slice el 2)) = (true, false).
+Proof. vm_compute. repeat split; reflexivity. Qed.
 
 (* independence: two element-level histories that differ in every other pin's bits agree on pin 1's slices *)
 Definition ex_e1 := {| e_mode_wstb := true; e_mode_wdata := 0x1E4; e_out_wstb := false; e_out_wdata := 0;
